@@ -17,6 +17,7 @@ func init() {
 			ruleLzmaFilterCodec(c, r, "")
 			ruleCheckIDs(c, r, "")
 			rulePadLen(c, r, "")
+			ruleCounting(c, r, "", "read")
 			xzReader := c.Cone(nonNilFns(c.Func("", "NewReader"), c.Func("", "ReaderConfig.NewReader"), c.Func("", "Reader.Read"))...)
 			ruleIO(c, r, xzReader, "", true)
 			ruleEOF(c, r, nonNilFns(c.Func("", "NewReader"), c.Func("", "ReaderConfig.NewReader"), c.Func("", "Reader.Read")), xzReader, "")
